@@ -293,4 +293,726 @@ theorem matchStreams_eq (fx real : Bool) (s t : Str) (ht : NUL ∉ t) :
   rw [matchLoopF_eq fx real s (matchFuel fx s t) s t t [] ht (by simp [matchFuel, stackCost, restCost])]
   simp [stackAny]
 
+/-- the loop's test at the end of the pattern -/
+def endOk (real : Bool) (t2 : Str) : Prop := t2 = [] ∨ (t2.head? = some '/' ∧ real = false)
+
+theorem hd_eq_nul_iff (t : Str) (ht : NUL ∉ t) : hd t = NUL ↔ t = [] := by
+  cases t with
+  | nil => simp [hd]
+  | cons c r =>
+    simp only [hd, List.headD_cons, reduceCtorEq, iff_false]
+    intro h; exact ht (by simp [h])
+
+theorem mC_nil_iff (fx real : Bool) (t : Str) (ht : NUL ∉ t) : mC fx real [] t = true ↔ endOk real t := by
+  cases t with
+  | nil => simp [mC, hd, endOk]
+  | cons c r =>
+    have hc : c ≠ NUL := fun h => ht (by simp [h])
+    simp [mC, hd, endOk, hc]
+
+def scannable (slash : Bool) (u : Str) : Prop := ∀ c ∈ u, c ≠ NUL ∧ (slash = true ∨ c ≠ '/')
+
+theorem scanC_sound (fx : Bool) (k : Str → Bool) (slash : Bool) (h : Char) : ∀ t : Str,
+    scanC fx k slash h t = true → ∃ u v, t = u ++ v ∧ scannable slash u ∧ k v = true := by
+  intro t
+  induction t with
+  | nil => intro hk; exact ⟨[], [], rfl, by simp [scannable], by simpa [scanC] using hk⟩
+  | cons c t ih =>
+    intro hk
+    simp only [scanC] at hk
+    by_cases hc : (c != NUL && (slash || c != '/')) = true
+    · simp only [hc, if_true, Bool.or_eq_true, Bool.and_eq_true] at hk
+      rcases hk with ⟨_, hk⟩ | hk
+      · exact ⟨[], c :: t, rfl, by simp [scannable], hk⟩
+      · obtain ⟨u, v, e, hs, hv⟩ := ih hk
+        refine ⟨c :: u, v, by simp [e], ?_, hv⟩
+        intro d hd'
+        simp only [List.mem_cons] at hd'
+        rcases hd' with rfl | hd'
+        · simp only [Bool.and_eq_true, bne_iff_ne, ne_eq, Bool.or_eq_true] at hc
+          exact ⟨hc.1, hc.2⟩
+        · exact hs d hd'
+    · simp only [hc, Bool.false_eq_true, if_false] at hk
+      exact ⟨[], c :: t, rfl, by simp [scannable], hk⟩
+
+theorem scanC_complete (fx : Bool) (k : Str → Bool) (slash : Bool) (h : Char) : ∀ (u v : Str),
+    scannable slash u → k v = true →
+    (v = [] ∨ hd v = NUL ∨ (slash = false ∧ hd v = '/') ∨ pushOk fx h (hd v) = true) →
+    scanC fx k slash h (u ++ v) = true := by
+  intro u
+  induction u with
+  | nil =>
+    intro v _ hk hcond
+    cases v with
+    | nil => simpa [scanC] using hk
+    | cons c v' =>
+      simp only [List.nil_append, scanC]
+      by_cases hc : (c != NUL && (slash || c != '/')) = true
+      · simp only [hc, if_true, hk, Bool.and_true, Bool.or_eq_true]
+        left
+        simp only [Bool.and_eq_true, bne_iff_ne, ne_eq, Bool.or_eq_true] at hc
+        rcases hcond with h0 | h0 | h0 | h0
+        · cases h0
+        · exact absurd h0 hc.1
+        · rcases hc.2 with h2 | h2
+          · rw [h0.1] at h2; cases h2
+          · exact absurd h0.2 h2
+        · exact h0
+      · simp only [hc, Bool.false_eq_true, if_false, hk]
+  | cons c u ih =>
+    intro v hs hk hcond
+    have hc : (c != NUL && (slash || c != '/')) = true := by
+      have := hs c (by simp)
+      simp only [Bool.and_eq_true, bne_iff_ne, ne_eq, Bool.or_eq_true]
+      exact this
+    simp only [List.cons_append, scanC, hc, if_true, Bool.or_eq_true]
+    right
+    exact ih v (fun d hd' => hs d (by simp [hd'])) hk hcond
+
+
+theorem not_mem_tail {a : Char} {l : Str} (h : a ∉ l) : a ∉ l.tail := fun hm => h (List.mem_of_mem_tail hm)
+
+theorem scannable_no_slash {u : Str} (h : scannable false u) : '/' ∉ u := by
+  intro hm
+  rcases (h '/' hm).2 with h2 | h2
+  · cases h2
+  · exact h2 rfl
+
+/-- soundness: whatever the search accepts is matched by the glob relation (any variant of the code) -/
+theorem mC_sound (fx real : Bool) : ∀ (n : Nat) (s t : Str), s.length ≤ n → NUL ∉ s → NUL ∉ t →
+    mC fx real s t = true → ∃ t1 t2, t = t1 ++ t2 ∧ Glob s t1 ∧ endOk real t2 := by
+  intro n
+  induction n with
+  | zero =>
+    intro s t hl _ ht hm
+    have : s = [] := List.eq_nil_of_length_eq_zero (by omega)
+    subst this
+    exact ⟨[], t, rfl, .nil, (mC_nil_iff fx real t ht).1 hm⟩
+  | succ n ih =>
+    intro s t hl hs ht hm
+    cases s with
+    | nil => exact ⟨[], t, rfl, .nil, (mC_nil_iff fx real t ht).1 hm⟩
+    | cons c s' =>
+      have hc0 : c ≠ NUL := fun h => hs (by simp [h])
+      have hs' : NUL ∉ s' := fun h => hs (by simp [h])
+      simp only [List.length_cons] at hl
+      by_cases hstar : c = '*'
+      · subst hstar
+        rw [mC_star] at hm
+        obtain ⟨u, v, e, hu, hv⟩ := scanC_sound fx _ _ _ t hm
+        have hvn : NUL ∉ v := fun h => ht (by simp [e, h])
+        by_cases h2 : (hd s' == '*') = true
+        · simp only [h2, if_true] at hv
+          cases s' with
+          | nil => simp [hd, NUL] at h2
+          | cons c2 s2 =>
+            have : c2 = '*' := by simpa [hd] using h2
+            subst this
+            simp only [List.tail_cons] at hv
+            obtain ⟨v1, v2, ev, hg, he⟩ := ih s2 v (by simp at hl; omega) (fun h => hs' (by simp [h])) hvn hv
+            exact ⟨u ++ v1, v2, by simp [e, ev], .sstar u hg, he⟩
+        · simp only [h2, Bool.false_eq_true, if_false] at hv hu
+          obtain ⟨v1, v2, ev, hg, he⟩ := ih s' v (by omega) hs' hvn hv
+          exact ⟨u ++ v1, v2, by simp [e, ev], .star u (scannable_no_slash hu) hg, he⟩
+      · by_cases hq : c = '?'
+        · subst hq
+          rw [mC_qm] at hm
+          simp only [Bool.and_eq_true, bne_iff_ne, ne_eq] at hm
+          cases t with
+          | nil => exact absurd rfl hm.1.1
+          | cons d t' =>
+            obtain ⟨v1, v2, ev, hg, he⟩ := ih s' t' (by omega) hs' (fun h => ht (by simp [h])) hm.2
+            exact ⟨d :: v1, v2, by simp [ev], .any1 (by simpa [hd] using hm.1.2) hg, he⟩
+        · rw [mC_lit fx real c s' t hstar hq hc0] at hm
+          simp only [Bool.and_eq_true, beq_iff_eq] at hm
+          cases t with
+          | nil => exact absurd hm.1 hc0
+          | cons d t' =>
+            have : c = d := by simpa [hd] using hm.1
+            subst this
+            obtain ⟨v1, v2, ev, hg, he⟩ := ih s' t' (by omega) hs' (fun h => ht (by simp [h])) hm.2
+            exact ⟨c :: v1, v2, by simp [ev], .lit hstar hq hg, he⟩
+
+
+theorem noTripleStar_tail {c : Char} {s : Str} (h : noTripleStar (c :: s) = true) : noTripleStar s = true := by
+  simp only [noTripleStar, Bool.not_eq_true', decide_eq_false_iff_not] at h ⊢
+  intro hi
+  exact h (List.infix_cons hi)
+
+theorem noTripleStar_three {p : Str} : noTripleStar ('*' :: '*' :: '*' :: p) = false := by
+  simp only [noTripleStar, Bool.not_eq_false', decide_eq_true_eq]
+  exact ⟨[], p, rfl⟩
+
+/-- the pattern positions at which the unrepaired loop loses backtrack positions are excluded -/
+def SO (fx : Bool) (s : Str) : Prop := fx = true ∨ starOkR s = true
+
+theorem SO_tail {fx : Bool} {c : Char} {s : Str} (hc : c ≠ '*') (h : SO fx (c :: s)) : SO fx s := by
+  rcases h with h | h
+  · exact Or.inl h
+  · right
+    have hb : (c == '*') = false := by simp [hc]
+    unfold starOkR at h
+    simpa [hb] using h
+
+theorem pushOk_of_mC (fx real : Bool) (c : Char) (s3 v : Str) (hn : c ≠ NUL)
+    (hso : fx = true ∨ (c ≠ '?' ∧ c ≠ '*')) (hm : mC fx real (c :: s3) v = true) :
+    pushOk fx c (hd v) = true := by
+  by_cases h1 : c = '*'
+  · rcases hso with h | h
+    · subst h1; simp [pushOk, h]
+    · exact absurd h1 h.2
+  · by_cases h2 : c = '?'
+    · rcases hso with h | h
+      · subst h2; simp [pushOk, h]
+      · exact absurd h2 h.1
+    · rw [mC_lit fx real c s3 v h1 h2 hn] at hm
+      simp only [Bool.and_eq_true] at hm
+      simp [pushOk, hm.1]
+
+/-- the condition under which `scanC` explores the candidate `v` when the rest of the pattern is `s2` -/
+theorem cand_ok (fx real slash : Bool) (s2 v : Str) (hs2 : NUL ∉ s2) (hne : s2 ≠ [])
+    (hso : fx = true ∨ (hd s2 ≠ '?' ∧ hd s2 ≠ '*')) (hm : mC fx real s2 v = true) :
+    v = [] ∨ hd v = NUL ∨ (slash = false ∧ hd v = '/') ∨ pushOk fx (hd s2) (hd v) = true := by
+  cases s2 with
+  | nil => exact absurd rfl hne
+  | cons c s3 =>
+    right; right; right
+    exact pushOk_of_mC fx real c s3 v (fun h => hs2 (by simp [h])) hso hm
+
+/-- a star (single: `slash = false`, double: `slash = true`) in front of `s2` accepts `u ++ w ++ t2` -/
+theorem star_complete (fx real slash : Bool) (s2 u w t2 : Str) (hs2 : NUL ∉ s2)
+    (hu : scannable slash u) (hwn : NUL ∉ w) (ht2 : NUL ∉ t2)
+    (hso : fx = true ∨ (hd s2 ≠ '?' ∧ hd s2 ≠ '*'))
+    (hw : s2 = [] → w = []) (he : endOk real t2)
+    (hm : mC fx real s2 (w ++ t2) = true) :
+    scanC fx (mC fx real s2) slash (hd s2) (u ++ (w ++ t2)) = true := by
+  by_cases hne : s2 = []
+  · subst hne
+    have hw' := hw rfl
+    subst hw'
+    simp only [List.nil_append]
+    rcases he with he | he
+    · subst he
+      exact scanC_complete fx _ slash _ u [] hu (by simp [mC, hd]) (Or.inl rfl)
+    · cases t2 with
+      | nil => simp at he
+      | cons d t2' =>
+        have hd' : d = '/' := by simpa using he.1
+        subst hd'
+        cases slash with
+        | false =>
+          exact scanC_complete fx _ false _ u ('/' :: t2') hu (by simpa using hm) (Or.inr (Or.inr (Or.inl ⟨rfl, rfl⟩)))
+        | true =>
+          have := scanC_complete fx (mC fx real []) true (hd ([] : Str)) (u ++ '/' :: t2') [] (by
+            intro c hc
+            simp only [List.mem_append] at hc
+            rcases hc with hc | hc
+            · exact ⟨(hu c hc).1, Or.inl rfl⟩
+            · exact ⟨fun h => ht2 (by rw [← h]; exact hc), Or.inl rfl⟩) (by simp [mC, hd]) (Or.inl rfl)
+          simpa using this
+  · exact scanC_complete fx _ slash _ u (w ++ t2) hu hm (cand_ok fx real slash s2 (w ++ t2) hs2 hne hso hm)
+
+
+theorem glob_nil_inv {w : Str} (h : Glob [] w) : w = [] := by cases h; rfl
+
+theorem scannable_true_of (u : Str) (h : NUL ∉ u) : scannable true u :=
+  fun c hc => ⟨fun e => h (e ▸ hc), Or.inl rfl⟩
+
+theorem scannable_false_of (u : Str) (h : NUL ∉ u) (h2 : '/' ∉ u) : scannable false u :=
+  fun c hc => ⟨fun e => h (e ▸ hc), Or.inr (fun e => h2 (e ▸ hc))⟩
+
+/-- completeness: whatever the glob relation matches is accepted by the search — for the repaired loop (`fx`)
+    always, for the loop before the repair on patterns where no star is followed by `?`/`*` -/
+theorem mC_complete (fx real : Bool) : ∀ (n : Nat) (s t1 t2 : Str), s.length ≤ n → NUL ∉ s → NUL ∉ t1 → NUL ∉ t2 →
+    SO fx s → noTripleStar s = true → Glob s t1 → endOk real t2 → mC fx real s (t1 ++ t2) = true := by
+  intro n
+  induction n with
+  | zero =>
+    intro s t1 t2 hl _ _ ht2 _ _ hg he
+    have : s = [] := List.eq_nil_of_length_eq_zero (by omega)
+    subst this
+    have := glob_nil_inv hg
+    subst this
+    exact (mC_nil_iff fx real t2 ht2).2 he
+  | succ n ih =>
+    intro s t1 t2 hl hs ht1 ht2 hso hts hg he
+    cases s with
+    | nil =>
+      have := glob_nil_inv hg
+      subst this
+      exact (mC_nil_iff fx real t2 ht2).2 he
+    | cons c p =>
+      have hc0 : c ≠ NUL := fun h => hs (by simp [h])
+      have hp : NUL ∉ p := fun h => hs (by simp [h])
+      have htsp := noTripleStar_tail hts
+      simp only [List.length_cons] at hl
+      by_cases hstar : c = '*'
+      · subst hstar
+        rw [mC_star]
+        cases p with
+        | nil =>
+          -- single star at the end of the pattern
+          cases hg with
+          | lit h1 _ _ => exact absurd rfl h1
+          | star u hu hg' =>
+            have := glob_nil_inv hg'
+            subst this
+            have hun : NUL ∉ u := fun h => ht1 (by simp [h])
+            have h2 : (hd ([] : Str) == '*') = false := by decide
+            simp only [h2, Bool.false_eq_true, if_false]
+            have := star_complete fx real false [] u [] t2 (by simp) (scannable_false_of u hun hu) (by simp) ht2
+              (Or.inr ⟨by decide, by decide⟩) (fun _ => rfl) he (by simpa using (mC_nil_iff fx real t2 ht2).2 he)
+            simpa using this
+        | cons c2 p2 =>
+          have hp2 : NUL ∉ p2 := fun h => hp (by simp [h])
+          by_cases h2 : c2 = '*'
+          · subst h2
+            -- the loop reads `**`
+            have hb : (hd ('*' :: p2) == '*') = true := by simp [hd]
+            simp only [hb, if_true, List.tail_cons]
+            have hso2 : fx = true ∨ (hd p2 ≠ '?' ∧ hd p2 ≠ '*') := by
+              rcases hso with h | h
+              · exact Or.inl h
+              · right
+                unfold starOkR at h
+                simp only [beq_self_eq_true, if_true, Bool.and_eq_true, bne_iff_ne, ne_eq] at h
+                exact ⟨h.1.2, h.1.1⟩
+            have hsop2 : SO fx p2 := by
+              rcases hso with h | h
+              · exact Or.inl h
+              · right
+                unfold starOkR at h
+                simp only [beq_self_eq_true, if_true, Bool.and_eq_true] at h
+                exact h.2
+            have htsp2 := noTripleStar_tail htsp
+            have key : ∀ (u w : Str), NUL ∉ u → NUL ∉ w → Glob p2 w →
+                scanC fx (mC fx real p2) true (hd p2) (u ++ (w ++ t2)) = true := by
+              intro u w hun hwn hgw
+              exact star_complete fx real true p2 u w t2 hp2 (scannable_true_of u hun) hwn ht2 hso2
+                (fun e => by subst e; exact glob_nil_inv hgw) he
+                (ih p2 w t2 (by simp at hl; omega) hp2 hwn ht2 hsop2 htsp2 hgw he)
+            cases hg with
+            | lit h1 _ _ => exact absurd rfl h1
+            | sstar u hg' =>
+              rename_i w
+              have hun : NUL ∉ u := fun h => ht1 (by simp [h])
+              have hwn : NUL ∉ w := fun h => ht1 (by simp [h])
+              have := key u w hun hwn hg'
+              simpa [List.append_assoc] using this
+            | star u hu hg' =>
+              rename_i w
+              have hun : NUL ∉ u := fun h => ht1 (by simp [h])
+              have hwn : NUL ∉ w := fun h => ht1 (by simp [h])
+              cases hg' with
+              | lit h1 _ _ => exact absurd rfl h1
+              | star u' hu' hg'' =>
+                rename_i w'
+                have hun' : NUL ∉ u' := fun h => hwn (by simp [h])
+                have hwn' : NUL ∉ w' := fun h => hwn (by simp [h])
+                have := key (u ++ u') w' (by simp [hun, hun']) hwn' hg''
+                simpa [List.append_assoc] using this
+              | sstar u' hg'' =>
+                rw [noTripleStar_three] at hts
+                cases hts
+          · -- the loop reads a single `*`
+            have hb : (hd (c2 :: p2) == '*') = false := by simp [hd, h2]
+            simp only [hb, Bool.false_eq_true, if_false]
+            have hso2 : fx = true ∨ (hd (c2 :: p2) ≠ '?' ∧ hd (c2 :: p2) ≠ '*') := by
+              rcases hso with h | h
+              · exact Or.inl h
+              · right
+                unfold starOkR at h
+                have hb2 : (c2 == '*') = false := by simp [h2]
+                simp only [beq_self_eq_true, if_true, hb2, Bool.false_eq_true, if_false, Bool.and_eq_true, bne_iff_ne, ne_eq] at h
+                exact ⟨h.1, h2⟩
+            have hsop : SO fx (c2 :: p2) := by
+              rcases hso with h | h
+              · exact Or.inl h
+              · right
+                unfold starOkR at h
+                have hb2 : (c2 == '*') = false := by simp [h2]
+                simp only [beq_self_eq_true, if_true, hb2, Bool.false_eq_true, if_false, Bool.and_eq_true] at h
+                exact h.2
+            cases hg with
+            | lit h1 _ _ => exact absurd rfl h1
+            | star u hu hg' =>
+              rename_i w
+              have hun : NUL ∉ u := fun h => ht1 (by simp [h])
+              have hwn : NUL ∉ w := fun h => ht1 (by simp [h])
+              have := star_complete fx real false (c2 :: p2) u w t2 hp (scannable_false_of u hun hu) hwn ht2 hso2
+                (fun e => by cases e) he (ih (c2 :: p2) w t2 (by omega) hp hwn ht2 hsop htsp hg' he)
+              simpa [List.append_assoc] using this
+            | sstar u hg' => exact absurd rfl h2
+      · have hsop : SO fx p := SO_tail hstar hso
+        by_cases hq : c = '?'
+        · subst hq
+          cases hg with
+          | lit _ h2 _ => exact absurd rfl h2
+          | any1 hd' hg' =>
+            rename_i d w
+            have hdn : d ≠ NUL := fun h => ht1 (by simp [h])
+            have hwn : NUL ∉ w := fun h => ht1 (by simp [h])
+            rw [mC_qm]
+            simp only [List.cons_append, hd, List.headD_cons, List.tail_cons, Bool.and_eq_true, bne_iff_ne, ne_eq]
+            exact ⟨⟨hdn, hd'⟩, ih p w t2 (by omega) hp hwn ht2 hsop htsp hg' he⟩
+        · cases hg with
+          | lit hx1 hx2 hg' =>
+            rename_i w
+            have hwn : NUL ∉ w := fun h => ht1 (by simp [h])
+            rw [mC_lit fx real c p _ hstar hq hc0]
+            simp only [List.cons_append, hd, List.headD_cons, List.tail_cons, beq_self_eq_true, Bool.true_and]
+            exact ih p w t2 (by omega) hp hwn ht2 hsop htsp hg' he
+          | any1 _ _ => exact absurd rfl hq
+          | star _ _ _ => exact absurd rfl hstar
+          | sstar _ _ => exact absurd rfl hstar
+
+
+theorem mC_iff (fx real : Bool) (s t : Str) (hs : NUL ∉ s) (ht : NUL ∉ t) (hso : SO fx s) (h3 : noTripleStar s = true) :
+    mC fx real s t = true ↔ ∃ t1 t2, t = t1 ++ t2 ∧ Glob s t1 ∧ endOk real t2 := by
+  constructor
+  · exact mC_sound fx real s.length s t (Nat.le_refl _) hs ht
+  · rintro ⟨t1, t2, e, hg, he⟩
+    subst e
+    exact mC_complete fx real s.length s t1 t2 (Nat.le_refl _) hs (fun h => ht (by simp [h])) (fun h => ht (by simp [h])) hso h3 hg he
+
+/-! ### reading direction -/
+
+theorem glob_append {p1 w1 p2 w2 : Str} (h1 : Glob p1 w1) (h2 : Glob p2 w2) : Glob (p1 ++ p2) (w1 ++ w2) := by
+  induction h1 with
+  | nil => simpa using h2
+  | lit ha hb _ ih => exact .lit ha hb ih
+  | any1 ha _ ih => exact .any1 ha ih
+  | star u hu _ ih => rw [List.append_assoc]; exact .star u hu ih
+  | sstar u _ ih => rw [List.append_assoc]; exact .sstar u ih
+
+theorem glob_reverse {p w : Str} (h : Glob p w) : Glob p.reverse w.reverse := by
+  induction h with
+  | nil => exact .nil
+  | lit ha hb _ ih =>
+    simp only [List.reverse_cons]
+    exact glob_append ih (.lit ha hb .nil)
+  | any1 ha _ ih =>
+    simp only [List.reverse_cons]
+    exact glob_append ih (.any1 ha .nil)
+  | star u hu _ ih =>
+    simp only [List.reverse_cons, List.reverse_append]
+    refine glob_append ih ?_
+    have := Glob.star (p := []) (w := []) u.reverse (by simpa using hu) .nil
+    simpa using this
+  | sstar u _ ih =>
+    simp only [List.reverse_cons, List.reverse_append, List.append_assoc]
+    refine glob_append ih ?_
+    have := Glob.sstar (p := []) (w := []) u.reverse .nil
+    simpa using this
+
+theorem glob_reverse_iff (p w : Str) : Glob p.reverse w.reverse ↔ Glob p w := by
+  constructor
+  · intro h; simpa using glob_reverse h
+  · exact glob_reverse
+
+theorem mem_afterSeps (t q : Str) : q ∈ afterSeps t ↔ ∃ a, t = a ++ '/' :: q := by
+  induction t with
+  | nil => simp [afterSeps]
+  | cons c t ih =>
+    simp only [afterSeps]
+    by_cases hc : c = '/'
+    · subst hc
+      simp only [beq_self_eq_true, if_true, List.mem_cons, ih]
+      constructor
+      · rintro (rfl | ⟨a, e⟩)
+        · exact ⟨[], rfl⟩
+        · exact ⟨'/' :: a, by simp [e]⟩
+      · rintro ⟨a, e⟩
+        cases a with
+        | nil => left; simpa using e.symm
+        | cons d a => right; exact ⟨a, by simpa using (List.cons.inj e).2⟩
+    · have hb : (c == '/') = false := by simp [hc]
+      simp only [hb, Bool.false_eq_true, if_false, ih]
+      constructor
+      · rintro ⟨a, e⟩; exact ⟨c :: a, by simp [e]⟩
+      · rintro ⟨a, e⟩
+        cases a with
+        | nil => exact absurd (List.cons.inj e).1 hc
+        | cons d a => exact ⟨a, (List.cons.inj e).2⟩
+
+theorem noTripleStar_reverse (p : Str) : noTripleStar p.reverse = noTripleStar p := by
+  have h : (['*', '*', '*'] : Str).reverse = ['*', '*', '*'] := rfl
+  simp only [noTripleStar]
+  congr 1
+  rw [← h]
+  exact decide_eq_decide.mpr List.reverse_infix
+
+
+theorem endOk_reverse (real : Bool) (pre : Str) :
+    endOk real pre.reverse ↔ (pre = [] ∨ (real = false ∧ pre.getLast? = some '/')) := by
+  simp only [endOk, List.reverse_eq_nil_iff, List.head?_reverse]
+  constructor
+  · rintro (h | ⟨h1, h2⟩)
+    · exact Or.inl h
+    · exact Or.inr ⟨h2, h1⟩
+  · rintro (h | ⟨h1, h2⟩)
+    · exact Or.inl h
+    · exact Or.inr ⟨h2, h1⟩
+
+/-- the search from every restart position, on the reversed canonical strings, is the documented rule -/
+theorem search_iff_spec (fx real : Bool) (P Y : Str) (hP : NUL ∉ P) (hY : NUL ∉ Y)
+    (hso : SO fx P.reverse) (h3 : noTripleStar P = true) :
+    (mC fx real P.reverse Y.reverse || restAny fx real P.reverse Y.reverse) = true ↔ SpecMatch real P Y := by
+  have hPr : NUL ∉ P.reverse := by simpa using hP
+  have h3r : noTripleStar P.reverse = true := by rw [noTripleStar_reverse]; exact h3
+  have key : ∀ q : Str, NUL ∉ q → (mC fx real P.reverse q = true ↔
+      ∃ pre mid, q.reverse = pre ++ mid ∧ (pre = [] ∨ (real = false ∧ pre.getLast? = some '/')) ∧ Glob P mid) := by
+    intro q hq
+    rw [mC_iff fx real P.reverse q hPr hq hso h3r]
+    constructor
+    · rintro ⟨t1, t2, e, hg, he⟩
+      refine ⟨t2.reverse, t1.reverse, by simp [e], ?_, ?_⟩
+      · have := (endOk_reverse real t2.reverse).1 (by simpa using he)
+        exact this
+      · have := (glob_reverse_iff P t1.reverse).1 (by simpa using hg)
+        exact this
+    · rintro ⟨pre, mid, e, hpre, hg⟩
+      refine ⟨mid.reverse, pre.reverse, ?_, (glob_reverse_iff P mid).2 hg, (endOk_reverse real pre).2 hpre⟩
+      have := congrArg List.reverse e
+      simpa using this
+  simp only [Bool.or_eq_true, restAny, List.any_eq_true]
+  constructor
+  · rintro (h | ⟨q, hq, h⟩)
+    · obtain ⟨pre, mid, e, hpre, hg⟩ := (key Y.reverse (by simpa using hY)).1 h
+      refine ⟨pre, mid, [], ?_, Or.inl rfl, hpre, hg⟩
+      simpa using e
+    · obtain ⟨a, ea⟩ := (mem_afterSeps _ _).1 hq
+      have hqn : NUL ∉ q := by
+        intro hm
+        have : NUL ∈ Y.reverse := by rw [ea]; simp [hm]
+        exact hY (by simpa using this)
+      obtain ⟨pre, mid, e, hpre, hg⟩ := (key q hqn).1 h
+      refine ⟨pre, mid, '/' :: a.reverse, ?_, Or.inr rfl, hpre, hg⟩
+      have := congrArg List.reverse ea
+      simp only [List.reverse_reverse, List.reverse_append, List.reverse_cons] at this
+      rw [this, e]
+      simp
+  · rintro ⟨pre, mid, post, e, hpost, hpre, hg⟩
+    rcases hpost with hpost | hpost
+    · subst hpost
+      left
+      refine (key Y.reverse (by simpa using hY)).2 ⟨pre, mid, ?_, hpre, hg⟩
+      simpa using e
+    · cases post with
+      | nil => simp at hpost
+      | cons d post' =>
+        have hd' : d = '/' := by simpa using hpost
+        subst hd'
+        right
+        refine ⟨(pre ++ mid).reverse, ?_, ?_⟩
+        · refine (mem_afterSeps _ _).2 ⟨post'.reverse, ?_⟩
+          rw [e]
+          simp
+        · have hqn : NUL ∉ (pre ++ mid).reverse := by
+            intro hm
+            apply hY
+            rw [e]
+            have : NUL ∈ pre ++ mid := List.mem_reverse.1 hm
+            simp only [List.mem_append] at this ⊢
+            exact Or.inl this
+          exact (key _ hqn).2 ⟨pre, mid, by simp, hpre, hg⟩
+
+/-! ### the executable form of the rules decides them -/
+
+theorem starLoopB_iff (k : Str → Bool) (slash : Bool) (w : Str) :
+    starLoopB k slash w = true ↔ ∃ u v, w = u ++ v ∧ (slash = true ∨ '/' ∉ u) ∧ k v = true := by
+  induction w with
+  | nil =>
+    simp only [starLoopB]
+    constructor
+    · intro h; exact ⟨[], [], rfl, Or.inr (by simp), h⟩
+    · rintro ⟨u, v, e, _, hk⟩
+      have : v = [] := by
+        have := congrArg List.length e
+        simp at this
+        exact List.eq_nil_of_length_eq_zero (by omega)
+      subst this; exact hk
+  | cons c w ih =>
+    simp only [starLoopB, Bool.or_eq_true, Bool.and_eq_true, bne_iff_ne, ne_eq, ih]
+    constructor
+    · rintro (h | ⟨hc, u, v, e, hu, hk⟩)
+      · exact ⟨[], c :: w, rfl, Or.inr (by simp), h⟩
+      · refine ⟨c :: u, v, by simp [e], ?_, hk⟩
+        rcases hc with hc | hc
+        · exact Or.inl hc
+        · rcases hu with hu | hu
+          · exact Or.inl hu
+          · right
+            intro hm
+            simp only [List.mem_cons] at hm
+            rcases hm with hm | hm
+            · exact hc hm.symm
+            · exact hu hm
+    · rintro ⟨u, v, e, hu, hk⟩
+      cases u with
+      | nil =>
+        left
+        have : c :: w = v := by simpa using e
+        rw [this]; exact hk
+      | cons d u =>
+        have hd' : c = d := by simpa using (List.cons.inj e).1
+        subst hd'
+        right
+        refine ⟨?_, u, v, (List.cons.inj e).2, ?_, hk⟩
+        · rcases hu with hu | hu
+          · exact Or.inl hu
+          · right; intro h; exact hu (by simp [h])
+        · rcases hu with hu | hu
+          · exact Or.inl hu
+          · right; intro h; exact hu (by simp [h])
+
+theorem globB_sound : ∀ (n : Nat) (p w : Str), p.length ≤ n → globB p w = true → Glob p w := by
+  intro n
+  induction n with
+  | zero =>
+    intro p w hl h
+    have : p = [] := List.eq_nil_of_length_eq_zero (by omega)
+    subst this
+    have : w = [] := by simpa [globB] using h
+    subst this; exact .nil
+  | succ n ih =>
+    intro p w hl h
+    cases p with
+    | nil =>
+      have : w = [] := by simpa [globB] using h
+      subst this; exact .nil
+    | cons c p' =>
+      simp only [List.length_cons] at hl
+      unfold globB at h
+      by_cases hs : c = '*'
+      · subst hs
+        simp only [beq_self_eq_true, if_true, Bool.or_eq_true] at h
+        rcases h with h | h
+        · obtain ⟨u, v, e, hu, hk⟩ := (starLoopB_iff _ _ _).1 h
+          subst e
+          refine .star u ?_ (ih p' v (by omega) hk)
+          rcases hu with hu | hu
+          · cases hu
+          · exact hu
+        · cases p' with
+          | nil => simp at h
+          | cons c2 p2 =>
+            simp only [Bool.and_eq_true, beq_iff_eq] at h
+            obtain ⟨hc2, h⟩ := h
+            subst hc2
+            obtain ⟨u, v, e, _, hk⟩ := (starLoopB_iff _ _ _).1 h
+            subst e
+            exact .sstar u (ih p2 v (by simp at hl; omega) hk)
+      · have hb : (c == '*') = false := by simp [hs]
+        simp only [hb, Bool.false_eq_true, if_false] at h
+        by_cases hq : c = '?'
+        · subst hq
+          simp only [beq_self_eq_true, if_true] at h
+          cases w with
+          | nil => simp at h
+          | cons d w' =>
+            simp only [Bool.and_eq_true, bne_iff_ne, ne_eq] at h
+            exact .any1 h.1 (ih p' w' (by omega) h.2)
+        · have hb2 : (c == '?') = false := by simp [hq]
+          simp only [hb2, Bool.false_eq_true, if_false] at h
+          cases w with
+          | nil => simp at h
+          | cons d w' =>
+            simp only [Bool.and_eq_true, beq_iff_eq] at h
+            obtain ⟨hcd, h⟩ := h
+            subst hcd
+            exact .lit hs hq (ih p' w' (by omega) h)
+
+theorem globB_complete {p w : Str} (h : Glob p w) : globB p w = true := by
+  induction h with
+  | nil => simp [globB]
+  | lit ha hb _ ih =>
+    unfold globB
+    simp [ha, hb, ih]
+  | any1 ha _ ih =>
+    unfold globB
+    simp [ha, ih]
+  | star u hu _ ih =>
+    unfold globB
+    simp only [beq_self_eq_true, if_true, Bool.or_eq_true]
+    left
+    exact (starLoopB_iff _ _ _).2 ⟨u, _, rfl, Or.inr hu, ih⟩
+  | sstar u _ ih =>
+    unfold globB
+    simp only [beq_self_eq_true, if_true, Bool.or_eq_true, Bool.true_and]
+    right
+    exact (starLoopB_iff _ _ _).2 ⟨u, _, rfl, Or.inl rfl, ih⟩
+
+theorem globB_iff (p w : Str) : globB p w = true ↔ Glob p w :=
+  ⟨globB_sound p.length p w (Nat.le_refl _), globB_complete⟩
+
+
+theorem prefixB_iff (P : Str) : ∀ (w acc : Str),
+    prefixB P acc w = true ↔
+      ∃ w1 w2, w = w1 ++ w2 ∧ (w2 = [] ∨ w2.head? = some '/') ∧ Glob P (acc.reverse ++ w1) := by
+  intro w
+  induction w with
+  | nil =>
+    intro acc
+    simp only [prefixB, globB_iff]
+    constructor
+    · intro h; exact ⟨[], [], rfl, Or.inl rfl, by simpa using h⟩
+    · rintro ⟨w1, w2, e, _, hg⟩
+      have h1 : w1 = [] := by
+        have := congrArg List.length e
+        simp at this
+        exact List.eq_nil_of_length_eq_zero (by omega)
+      subst h1; simpa using hg
+  | cons c w ih =>
+    intro acc
+    simp only [prefixB, Bool.or_eq_true, Bool.and_eq_true, beq_iff_eq, globB_iff, ih]
+    constructor
+    · rintro (⟨hc, hg⟩ | ⟨w1, w2, e, hw2, hg⟩)
+      · subst hc
+        exact ⟨[], '/' :: w, rfl, Or.inr rfl, by simpa using hg⟩
+      · exact ⟨c :: w1, w2, by simp [e], hw2, by simpa using hg⟩
+    · rintro ⟨w1, w2, e, hw2, hg⟩
+      cases w1 with
+      | nil =>
+        left
+        have e' : c :: w = w2 := by simpa using e
+        subst e'
+        rcases hw2 with hw2 | hw2
+        · cases hw2
+        · exact ⟨by simpa using hw2, by simpa using hg⟩
+      | cons d w1' =>
+        have hd' : c = d := (List.cons.inj e).1
+        subst hd'
+        right
+        exact ⟨w1', w2, (List.cons.inj e).2, hw2, by simpa using hg⟩
+
+/-- the executable decision procedure decides the documented rule -/
+theorem specMatchB_iff (real : Bool) (P Y : Str) : specMatchB real P Y = true ↔ SpecMatch real P Y := by
+  simp only [specMatchB, startsB, Bool.or_eq_true, Bool.and_eq_true, Bool.not_eq_true', List.any_eq_true,
+    prefixB_iff, List.reverse_nil, List.nil_append]
+  constructor
+  · rintro (⟨w1, w2, e, hw2, hg⟩ | ⟨hr, q, hq, w1, w2, e, hw2, hg⟩)
+    · exact ⟨[], w1, w2, by simp [e], hw2, Or.inl rfl, hg⟩
+    · obtain ⟨a, ea⟩ := (mem_afterSeps _ _).1 hq
+      refine ⟨a ++ ['/'], w1, w2, by simp [ea, e], hw2, Or.inr ⟨hr, by simp⟩, hg⟩
+  · rintro ⟨pre, mid, post, e, hpost, hpre, hg⟩
+    rcases hpre with hpre | ⟨hr, hl⟩
+    · subst hpre
+      left
+      exact ⟨mid, post, by simpa using e, hpost, hg⟩
+    · right
+      refine ⟨hr, mid ++ post, ?_, mid, post, rfl, hpost, hg⟩
+      obtain ⟨a, ha⟩ : ∃ a, pre = a ++ ['/'] := by
+        cases hp : pre.reverse with
+        | nil => simp at hp; subst hp; simp at hl
+        | cons d r =>
+          have : pre = r.reverse ++ [d] := by
+            have := congrArg List.reverse hp
+            simpa using this
+          subst this
+          simp at hl
+          subst hl
+          exact ⟨r.reverse, rfl⟩
+      exact (mem_afterSeps _ _).2 ⟨a, by rw [e, ha]; simp⟩
+
 end Cppcheck.PathMatch
